@@ -118,6 +118,7 @@ def o42(ctx):
     ctx.touched(q2)
     it = Interp(ctx.prog, assume=assume_map({"keep_halfsets": False}))
     me = Obj(CLS, {"df": motl_frame(ctx.prog), "sg_df": Frame(name="sg")})
+    me.attrs["df"].labels_adopt = True  # the constructor starts from the empty table of Motl.__init__: the first stored column brings the labels
     sgf = Frame({c: sym("sg:" + c) for c in ctx.prog.class_attr(CLS, "columns")}, list(ctx.prog.class_attr(CLS, "columns")),
                 prefix="sg:", name="stopgap_df")
     sgf.space = Space("sg", how="root")
@@ -201,4 +202,4 @@ def _obligations():
 
 
 def obligations():
-    return _obligations() + [effects_obligation("C04")]
+    return _obligations() + [labels_obligation("C04"), effects_obligation("C04")]
